@@ -796,6 +796,68 @@ pub fn run_c07(tier: Tier) -> i32 {
         }
     });
     fams.push(json!({"family": "every legal move as searchmoves after an earlier search of the same position on the same engine", "positions": sm_positions.len(), "gos": stats.gos.load(Ordering::Relaxed) - before_sm, "secs": t0.elapsed().as_secs_f64()}));
+    // ---- (2b') the game goes on along the engine's own line: position P / go depth d1, then
+    // `position P moves <the first one or two moves of the line the engine announced>` and, as the
+    // FIRST go after that, every legal move as searchmoves under shallow and zero-budget limits. The
+    // continuation is taken from the engine's output, so whatever it keeps for "the expected reply
+    // was played" is in force.
+    let t0 = Instant::now();
+    let before_cont = stats.gos.load(Ordering::Relaxed);
+    let d1s: &[usize] = if tier == Tier::Quick { &[3, 4] } else { &[3, 4, 5] };
+    let cont_jobs: Vec<(usize, usize, usize)> = sm_positions.iter().flat_map(|&pi| d1s.iter().flat_map(move |&d1| [1usize, 2].into_iter().map(move |c| (pi, d1, c)))).collect();
+    par_map_fine(&cont_jobs, |&(pi, d1, c)| {
+        let (base, moves, tag) = &positions[pi];
+        if tag.starts_with("fullmove_") || *tag == "root_occurred_three_times" {
+            return;
+        }
+        let pos_line = position_line(base, moves);
+        let first_go = format!("go depth {}", d1);
+        let first = {
+            let mut s = Session::new(false);
+            s.line(&pos_line);
+            let o = run_go(&mut s, &first_go, Plan::virtual_rate(1_000), &none);
+            s.quit();
+            o
+        };
+        if first.problem.is_some() || first.pv.len() < c {
+            return;
+        }
+        let mut moves2 = moves.clone();
+        moves2.extend(first.pv[..c].iter().cloned());
+        let mut root2 = base.clone();
+        for u in &moves2 {
+            match root2.find_legal_uci(u) {
+                Some(m) => root2 = root2.make(&m),
+                None => return, // an illegal PV is C08's business
+            }
+        }
+        let legal2: Vec<String> = root2.legal().iter().map(|m| m.uci()).collect();
+        if legal2.is_empty() {
+            return;
+        }
+        let pos_line2 = position_line(base, &moves2);
+        let take = if tier == Tier::Quick { 6 } else { legal2.len() };
+        let step = (legal2.len() / take).max(1);
+        let picks: Vec<&String> = legal2.iter().step_by(step).take(take).collect();
+        for x in picks {
+            for variant in ["go depth 1", "go depth 2", "go wtime 60000 btime 60000 winc 0 binc 0", "go movetime 0"] {
+                if variant == "go depth 2" && d1 < 4 && tier == Tier::Quick {
+                    continue;
+                }
+                stats.gos.fetch_add(1, Ordering::Relaxed);
+                let mut s = Session::new(false);
+                s.line(&pos_line);
+                let _ = run_go(&mut s, &first_go, Plan::virtual_rate(1_000), &none);
+                s.line(&pos_line2);
+                let spec = GoSpec { line: format!("{} searchmoves {}", variant, x), needs_stop: false, searchmoves: vec![x.clone()] };
+                let out = run_go(&mut s, &spec.line, Plan::virtual_rate(1_000), &none);
+                let (late, _) = s.quit();
+                let late_best = late.iter().filter(|e| matches!(e, Ev::Best(..))).count();
+                c07_judge(&rep, &root2, "continuation", &pos_line2, &spec, "1us/node", &out, late_best, json!({"prefix": [pos_line, first_go], "continuation_plies_from_the_engines_own_line": c}));
+            }
+        }
+    });
+    fams.push(json!({"family": "first go after the game followed the engine's own line (1 or 2 plies of its PV): every legal move as searchmoves, shallow and zero budget", "cases": cont_jobs.len(), "gos": stats.gos.load(Ordering::Relaxed) - before_cont, "secs": t0.elapsed().as_secs_f64()}));
     // ---- (2c) in-search message alphabet: message X first visible at poll k1, stop at poll k2 >= k1;
     // and stray messages while idle before the go (they must be ignored)
     let t0 = Instant::now();
@@ -1098,11 +1160,25 @@ pub fn replay_c07(case: &Value) -> i32 {
     }
     let needs_stop = !(go.contains("depth") || go.contains("movetime") || go.contains("wtime"));
     let (n2, _) = dry_run(&pos_line, "go depth 2");
-    let spec = GoSpec { line: go.clone(), needs_stop, searchmoves: vec![] };
+    let searchmoves: Vec<String> = match go.split(' ').position(|t| t == "searchmoves") {
+        Some(i) => go.split(' ').skip(i + 1).take_while(|t| is_move(t)).map(|t| t.to_string()).collect(),
+        None => vec![],
+    };
+    let spec = GoSpec { line: go.clone(), needs_stop, searchmoves };
+    let prefix: Vec<String> = case["context"]["prefix"].as_array().map(|a| a.iter().filter_map(|v| v.as_str().map(|s| s.to_string())).collect()).unwrap_or_default();
     let mut seen = Vec::new();
     for round in 0..2 {
         let mut s = Session::new(false);
-        s.line("ucinewgame");
+        if prefix.is_empty() {
+            s.line("ucinewgame");
+        }
+        for l in &prefix {
+            if l.starts_with("go") {
+                let _ = run_go(&mut s, l, Plan::virtual_rate(1_000), &none);
+            } else {
+                s.line(l);
+            }
+        }
         s.line(&pos_line);
         let (plan, st) = plan_for(&spec, rate, n2, stop_at.max(1));
         let out = run_go(&mut s, &go, plan, &|kk| if kk == st { vec![GateAction::Stop] } else { vec![] });
